@@ -242,11 +242,12 @@ def sorm_model_stream(res, rng, k):
             continue
         x = np.array(x, dtype=float)
         # outside |z| <= 6 the implementation's route through cdf / ppf loses the upper tail (DESIGN 7)
-        zs = [((xx - a1) / a2 if kd == 'n' else (math.log(xx) - a1) / a2) for xx, kd, a1, a2 in zip(x, kinds, p1, p2) if kd == 'n' or xx > 0]
-        if len(zs) < d or max(abs(z) for z in zs) > 6:
+        from formmodel import zs_of
+        zs = zs_of(dists, x)
+        if any(z != z for z in zs) or max(abs(z) for z in zs) > 6:
             res.stat('sorm_model_design_point_in_the_far_tail')
             continue
-        res.stat('sorm_model_' + shape + ('_lognormal' if 'l' in kinds else '_normal'))
+        res.stat('sorm_model_' + shape + ('_other_families' if any(kd not in 'nl' for kd in kinds) else '_lognormal' if 'l' in kinds else '_normal'))
         reqs.append(' '.join(['sormpipe', str(d), ','.join(kinds), fcsv(p1), fcsv(p2), fcsv(np.array(nat.rhoZ).flatten()), fcsv(x),
                               fcsv(b + (Q + Q.T) @ x), fcsv((Q + Q.T).flatten())]))
         meta.append((case, sorted(float(np.real(v)) for v in ks), d))
